@@ -10,6 +10,7 @@ tied by the correspondence check on stable vocabularies (DESIGN.md section 3, br
 import RosedVerif.Spec.WrapLemmas
 import RosedVerif.Model.WrapRefine
 import RosedVerif.Model.WrapFits
+import RosedVerif.Model.BridgeWrap
 namespace RosedVerif.Props
 open RosedVerif RosedVerif.Spec
 
@@ -71,6 +72,35 @@ theorem C06_width_all (text : List Int) (w : Int) (sep : List Int) (r : List (Li
 theorem C06_subadditive (a b : List Int) :
     (splitRunes (a ++ b)).length ≤ (splitRunes a).length + (splitRunes b).length :=
   splitRunes_length_append_le a b
+
+/-- **bridge to code points**: on a stable vocabulary `V` (decidable: every concatenation of
+vocabulary clusters segments back into those clusters, `VocabStable`), containing the space and the
+hyphen and with no U+0020 hidden in a non-head position of a cluster, the model of manip.Wrap run
+on CODE POINTS with the real UAX #29 segmentation succeeds, and segmenting its lines gives back
+exactly the greedy specification on clusters.  Hence every clause above (width, single spaces,
+greedy, hyphenation shape, idempotence) holds for such code-point text — precomposed or
+decomposed accents, flags, ZWJ sequences, jamo alike. -/
+theorem C06_code_points {V : List (List Int)} (hV : VocabStable V = true) (hsp : [0x20] ∈ V)
+    (hhy : [0x2D] ∈ V) (hspTail : ∀ t ∈ V, (0x20 : Int) ∉ t.tail)
+    (toks : List (List Int)) (ht : ∀ t ∈ toks, t ∈ V) (w : Int) :
+    ∃ r, RosedVerif.wrapLines cxA toks.flatten w [] = .ok r ∧
+      r.map (clusters cxA) = Spec.wrapLines ⟨cxB.isSpace, cxB.sp, cxB.hy⟩ (max w 2).toNat toks ∧
+      r.map (gLen cxA) =
+        (Spec.wrapLines ⟨cxB.isSpace, cxB.sp, cxB.hy⟩ (max w 2).toNat toks).map List.length :=
+  wrapLines_bridge_clusters hV hsp hhy hspTail toks ht w
+
+/-- the side condition is needed: with the cluster ⟨U+0600 U+0020⟩ (Prepend + space) in the
+vocabulary the rune-level space collapsing merges a space INSIDE a cluster with the next one -/
+theorem C06_code_points_needs_spTail :
+    VocabStable [[0x61], [0x20], [0x600, 0x20]] = true ∧
+    collapseSpace cxA ([[0x600, 0x20], [0x20], [0x61]] : List (List Int)).flatten [] =
+      .ok [0x600, 0x20, 0x61] := by
+  exact ⟨BridgeWrap.spTail_needed.1, BridgeWrap.spTail_needed.2.1⟩
+
+/-- non-vacuity of the bridge: a vocabulary with a decomposed accent, a flag and a tab -/
+example : VocabStable BridgeWrap.demoVocab2 = true ∧ [0x20] ∈ BridgeWrap.demoVocab2 ∧
+    [0x2D] ∈ BridgeWrap.demoVocab2 ∧ ∀ t ∈ BridgeWrap.demoVocab2, (0x20 : Int) ∉ t.tail :=
+  ⟨BridgeWrap.demoVocab2_stable, by decide, by decide, BridgeWrap.demoVocab2_spTail⟩
 
 /-! non-vacuity -/
 example : Spec.wrapLines ⟨(· == 0), 0, 99⟩ 5 [1, 2, 3, 0, 4, 5, 6, 7, 8, 9, 0, 1] =
